@@ -1,20 +1,487 @@
-//! Independent CFF reader (INDEX / DICT / charset / FDSelect / Type 2 charstring flattening).
+//! Independent CFF reader (Adobe TN #5176 / #5177): header, INDEX, DICT, charset, FDSelect,
+//! FDArray / Private DICTs and a Type 2 charstring *flattener* (subroutine calls inlined, the
+//! operand/operator token stream fingerprinted, the width operand resolved against
+//! defaultWidthX / nominalWidthX).  No outline interpreter: two charstrings are "the same" when
+//! their flattened token streams are identical.  Shares no code with oxidize-pdf.
 #![allow(dead_code)]
-use super::sfnt::Sfnt;
+use super::sfnt::{be16, fp64, Sfnt};
 use std::collections::BTreeMap;
 
-pub fn make_cf(id: &str, used: &[u32], bytes: &[u8], _s: &Sfnt, mapped: &[(u32, u16)], ng: u16) -> Option<String> {
-    let j = |v: Vec<String>| if v.is_empty() { "-".to_string() } else { v.join(",") };
+#[derive(Clone, Debug, Default)]
+pub struct Index {
+    pub items: Vec<(usize, usize)>, // absolute [start, end) in the CFF data
+    pub end: usize,
+}
+
+pub fn parse_index(d: &[u8], o: usize) -> Result<Index, String> {
+    let count = be16(d, o).ok_or("INDEX count")? as usize;
+    if count == 0 {
+        return Ok(Index { items: vec![], end: o + 2 });
+    }
+    let osz = *d.get(o + 2).ok_or("INDEX offSize")? as usize;
+    if !(1..=4).contains(&osz) {
+        return Err(format!("INDEX offSize {}", osz));
+    }
+    let arr = o + 3;
+    let base = arr + (count + 1) * osz - 1;
+    let rd = |i: usize| -> Result<usize, String> {
+        let p = arr + i * osz;
+        if p + osz > d.len() {
+            return Err("INDEX offsets short".into());
+        }
+        Ok(d[p..p + osz].iter().fold(0usize, |a, b| (a << 8) | *b as usize))
+    };
+    let mut items = Vec::with_capacity(count);
+    let mut prev = rd(0)?;
+    if prev != 1 {
+        return Err("INDEX first offset != 1".into());
+    }
+    for i in 1..=count {
+        let cur = rd(i)?;
+        if cur < prev || base + cur > d.len() {
+            return Err("INDEX offsets not monotone / out of data".into());
+        }
+        items.push((base + prev, base + cur));
+        prev = cur;
+    }
+    Ok(Index { items, end: base + prev })
+}
+
+#[derive(Clone, Debug, PartialEq)]
+pub enum Num {
+    Int(i64),
+    Real(String),
+}
+
+/// DICT → operator (two-byte operators as 1200 + b) ↦ operands
+pub fn parse_dict(d: &[u8]) -> Result<BTreeMap<u16, Vec<Num>>, String> {
+    let mut m = BTreeMap::new();
+    let mut st: Vec<Num> = vec![];
+    let mut i = 0;
+    while i < d.len() {
+        let b = d[i];
+        match b {
+            0..=21 => {
+                let op = if b == 12 {
+                    i += 1;
+                    1200 + *d.get(i).ok_or("DICT escape short")? as u16
+                } else {
+                    b as u16
+                };
+                i += 1;
+                m.insert(op, std::mem::take(&mut st));
+            }
+            28 => {
+                st.push(Num::Int(be16(d, i + 1).ok_or("DICT short")? as i16 as i64));
+                i += 3;
+            }
+            29 => {
+                if i + 5 > d.len() {
+                    return Err("DICT short".into());
+                }
+                st.push(Num::Int(i32::from_be_bytes([d[i + 1], d[i + 2], d[i + 3], d[i + 4]]) as i64));
+                i += 5;
+            }
+            30 => {
+                let mut s = String::new();
+                i += 1;
+                'r: loop {
+                    let x = *d.get(i).ok_or("DICT real short")?;
+                    i += 1;
+                    for n in [x >> 4, x & 15] {
+                        match n {
+                            0..=9 => s.push((b'0' + n) as char),
+                            10 => s.push('.'),
+                            11 => s.push('E'),
+                            12 => s.push_str("E-"),
+                            14 => s.push('-'),
+                            15 => break 'r,
+                            _ => return Err("DICT real nibble".into()),
+                        }
+                    }
+                }
+                st.push(Num::Real(s));
+            }
+            32..=246 => {
+                st.push(Num::Int(b as i64 - 139));
+                i += 1;
+            }
+            247..=250 => {
+                st.push(Num::Int((b as i64 - 247) * 256 + *d.get(i + 1).ok_or("DICT short")? as i64 + 108));
+                i += 2;
+            }
+            251..=254 => {
+                st.push(Num::Int(-(b as i64 - 251) * 256 - *d.get(i + 1).ok_or("DICT short")? as i64 - 108));
+                i += 2;
+            }
+            _ => return Err(format!("DICT byte {}", b)),
+        }
+    }
+    Ok(m)
+}
+
+fn int_of(m: &BTreeMap<u16, Vec<Num>>, op: u16, k: usize) -> Option<i64> {
+    match m.get(&op)?.get(k)? {
+        Num::Int(v) => Some(*v),
+        Num::Real(_) => None,
+    }
+}
+fn num_str(m: &BTreeMap<u16, Vec<Num>>, op: u16, default: &str) -> String {
+    match m.get(&op).and_then(|v| v.first()) {
+        Some(Num::Int(v)) => v.to_string(),
+        Some(Num::Real(s)) => s.clone(),
+        None => default.to_string(),
+    }
+}
+
+pub struct Private {
+    pub default_w: String,
+    pub nominal_w: String,
+    pub subrs: Index,
+}
+
+pub struct Cff<'a> {
+    pub d: &'a [u8],
+    pub top: BTreeMap<u16, Vec<Num>>,
+    pub gsubrs: Index,
+    pub charstrings: Index,
+    pub is_cid: bool,
+    pub fdselect: Vec<u8>,
+    pub privates: Vec<Private>,
+    /// gid → SID/CID (gid 0 = 0)
+    pub charset: Vec<u16>,
+    pub string_count: usize,
+}
+
+fn parse_private(d: &[u8], size: i64, off: i64) -> Result<Private, String> {
+    if size < 0 || off < 0 || (off + size) as usize > d.len() {
+        return Err("Private DICT out of data".into());
+    }
+    let pd = parse_dict(&d[off as usize..(off + size) as usize])?;
+    let subrs = match int_of(&pd, 19, 0) {
+        Some(rel) => parse_index(d, (off + rel) as usize)?,
+        None => Index::default(),
+    };
+    Ok(Private { default_w: num_str(&pd, 20, "0"), nominal_w: num_str(&pd, 21, "0"), subrs })
+}
+
+impl<'a> Cff<'a> {
+    pub fn parse(d: &'a [u8]) -> Result<Cff<'a>, String> {
+        if d.len() < 4 || d[0] != 1 {
+            return Err("CFF header".into());
+        }
+        let name = parse_index(d, d[2] as usize)?;
+        let topi = parse_index(d, name.end)?;
+        if name.items.len() != 1 || topi.items.len() != 1 {
+            return Err("not exactly one font in the CFF".into());
+        }
+        let strings = parse_index(d, topi.end)?;
+        let gsubrs = parse_index(d, strings.end)?;
+        let top = parse_dict(&d[topi.items[0].0..topi.items[0].1])?;
+        let cso = int_of(&top, 17, 0).ok_or("no CharStrings")? as usize;
+        let charstrings = parse_index(d, cso)?;
+        let n = charstrings.items.len();
+        let is_cid = top.contains_key(&1230);
+        let mut privates = vec![];
+        let mut fdselect = vec![0u8; n];
+        if let Some(fda) = int_of(&top, 1236, 0) {
+            let fdi = parse_index(d, fda as usize)?;
+            for it in &fdi.items {
+                let fd = parse_dict(&d[it.0..it.1])?;
+                let (sz, off) = (int_of(&fd, 18, 0).ok_or("FD without Private")?, int_of(&fd, 18, 1).ok_or("FD Private")?);
+                privates.push(parse_private(d, sz, off)?);
+            }
+            let fso = int_of(&top, 1237, 0).ok_or("FDArray without FDSelect")? as usize;
+            match *d.get(fso).ok_or("FDSelect")? {
+                0 => {
+                    for g in 0..n {
+                        fdselect[g] = *d.get(fso + 1 + g).ok_or("FDSelect0 short")?;
+                    }
+                }
+                3 => {
+                    let nr = be16(d, fso + 1).ok_or("FDSelect3")? as usize;
+                    for r in 0..nr {
+                        let first = be16(d, fso + 3 + 3 * r).ok_or("FDSelect3")? as usize;
+                        let fd = *d.get(fso + 5 + 3 * r).ok_or("FDSelect3")?;
+                        let next = be16(d, fso + 6 + 3 * r).ok_or("FDSelect3")? as usize;
+                        for g in first..next.min(n) {
+                            fdselect[g] = fd;
+                        }
+                    }
+                }
+                f => return Err(format!("FDSelect format {}", f)),
+            }
+            if fdselect.iter().any(|f| *f as usize >= privates.len()) {
+                return Err("FDSelect names a missing FD".into());
+            }
+        } else {
+            let (sz, off) = (int_of(&top, 18, 0).unwrap_or(0), int_of(&top, 18, 1).unwrap_or(0));
+            privates.push(parse_private(d, sz, off)?);
+        }
+        let mut charset = vec![0u16; n];
+        match int_of(&top, 15, 0).unwrap_or(0) {
+            0 | 1 | 2 if !top.contains_key(&15) || int_of(&top, 15, 0).unwrap() <= 2 => {
+                for g in 0..n {
+                    charset[g] = g as u16; // predefined charsets: not needed for the comparison
+                }
+            }
+            o => {
+                let o = o as usize;
+                let fmt = *d.get(o).ok_or("charset")?;
+                let mut g = 1;
+                let mut p = o + 1;
+                while g < n {
+                    match fmt {
+                        0 => {
+                            charset[g] = be16(d, p).ok_or("charset0 short")?;
+                            p += 2;
+                            g += 1;
+                        }
+                        1 | 2 => {
+                            let first = be16(d, p).ok_or("charset short")?;
+                            let left = if fmt == 1 {
+                                p += 3;
+                                *d.get(p - 1).ok_or("charset short")? as usize
+                            } else {
+                                p += 4;
+                                be16(d, p - 2).ok_or("charset short")? as usize
+                            };
+                            for k in 0..=left {
+                                if g < n {
+                                    charset[g] = first.wrapping_add(k as u16);
+                                    g += 1;
+                                }
+                            }
+                        }
+                        f => return Err(format!("charset format {}", f)),
+                    }
+                }
+            }
+        }
+        Ok(Cff { d, top, gsubrs, charstrings, is_cid, fdselect, privates, charset, string_count: strings.items.len() })
+    }
+
+    /// (advance width as a decimal token, fingerprint of the flattened charstring without the
+    /// width operand)
+    pub fn glyph(&self, gid: usize) -> Result<(String, u64), String> {
+        let it = *self.charstrings.items.get(gid).ok_or("gid beyond CharStrings")?;
+        let pr = &self.privates[self.fdselect[gid] as usize];
+        let mut fl = Flat { toks: vec![], stack: vec![], hints: 0, width: None, seen_clear: false, ended: false };
+        fl.run(self.d, it, &self.gsubrs, &pr.subrs, 0)?;
+        let w = match &fl.width {
+            None => pr.default_w.clone(),
+            Some(w) => add_dec(&pr.nominal_w, w),
+        };
+        Ok((w, fp64(&[b"T2", &fl.toks])))
+    }
+}
+
+/// nominalWidthX + w, exact for integers; otherwise a symbolic sum (compared as a token)
+fn add_dec(a: &str, b: &str) -> String {
+    match (a.parse::<i64>(), b.parse::<i64>()) {
+        (Ok(x), Ok(y)) => (x + y).to_string(),
+        _ => format!("{}+{}", a, b),
+    }
+}
+
+struct Flat {
+    toks: Vec<u8>,
+    stack: Vec<String>,
+    hints: usize,
+    width: Option<String>,
+    seen_clear: bool,
+    ended: bool,
+}
+
+fn bias(n: usize) -> i64 {
+    if n < 1240 {
+        107
+    } else if n < 33900 {
+        1131
+    } else {
+        32768
+    }
+}
+
+impl Flat {
+    fn take_width(&mut self, expect_even: bool, min_extra: usize) {
+        if self.seen_clear {
+            return;
+        }
+        self.seen_clear = true;
+        let n = self.stack.len();
+        let has = if expect_even { n % 2 == 1 } else { n > min_extra };
+        if has && n > 0 {
+            self.width = Some(self.stack.remove(0));
+        }
+    }
+    fn flush(&mut self, op: &[u8]) {
+        for s in self.stack.drain(..) {
+            self.toks.extend_from_slice(s.as_bytes());
+            self.toks.push(b' ');
+        }
+        self.toks.push(b'#');
+        self.toks.extend_from_slice(op);
+        self.toks.push(b' ');
+    }
+    fn run(&mut self, d: &[u8], span: (usize, usize), g: &Index, l: &Index, depth: usize) -> Result<(), String> {
+        if depth > 10 {
+            return Err("subr nesting > 10".into());
+        }
+        let mut i = span.0;
+        while i < span.1 && !self.ended {
+            let b = d[i];
+            match b {
+                28 => {
+                    self.stack.push((be16(d, i + 1).ok_or("cs short")? as i16).to_string());
+                    i += 3;
+                }
+                32..=246 => {
+                    self.stack.push((b as i64 - 139).to_string());
+                    i += 1;
+                }
+                247..=250 => {
+                    self.stack.push(((b as i64 - 247) * 256 + *d.get(i + 1).ok_or("cs short")? as i64 + 108).to_string());
+                    i += 2;
+                }
+                251..=254 => {
+                    self.stack.push((-(b as i64 - 251) * 256 - *d.get(i + 1).ok_or("cs short")? as i64 - 108).to_string());
+                    i += 2;
+                }
+                255 => {
+                    if i + 5 > span.1 {
+                        return Err("cs short".into());
+                    }
+                    let v = i32::from_be_bytes([d[i + 1], d[i + 2], d[i + 3], d[i + 4]]);
+                    self.stack.push(format!("f{}", v));
+                    i += 5;
+                }
+                10 | 29 => {
+                    let idx = self.stack.pop().ok_or("callsubr on empty stack")?;
+                    let idx: i64 = idx.parse().map_err(|_| "subr index not an integer")?;
+                    let tab = if b == 10 { l } else { g };
+                    let k = idx + bias(tab.items.len());
+                    let it = *tab.items.get(k as usize).ok_or("subr index out of range")?;
+                    if k < 0 {
+                        return Err("subr index negative".into());
+                    }
+                    self.run(d, it, g, l, depth + 1)?;
+                    i += 1;
+                }
+                11 => return Ok(()),
+                14 => {
+                    self.take_width(false, if self.stack.len() >= 4 { 4 } else { 0 });
+                    self.flush(&[14]);
+                    self.ended = true;
+                    i += 1;
+                }
+                1 | 3 | 18 | 23 => {
+                    self.take_width(true, 0);
+                    self.hints += self.stack.len() / 2;
+                    self.flush(&[b]);
+                    i += 1;
+                }
+                19 | 20 => {
+                    self.take_width(true, 0);
+                    self.hints += self.stack.len() / 2;
+                    let nb = (self.hints + 7) / 8;
+                    if i + 1 + nb > span.1 {
+                        return Err("hintmask short".into());
+                    }
+                    let mut op = vec![b];
+                    op.extend_from_slice(&d[i + 1..i + 1 + nb]);
+                    self.flush(&op);
+                    i += 1 + nb;
+                }
+                21 => {
+                    self.take_width(false, 2);
+                    self.flush(&[b]);
+                    i += 1;
+                }
+                4 | 22 => {
+                    self.take_width(false, 1);
+                    self.flush(&[b]);
+                    i += 1;
+                }
+                12 => {
+                    let b2 = *d.get(i + 1).ok_or("cs escape short")?;
+                    self.flush(&[12, b2]);
+                    i += 2;
+                }
+                _ => {
+                    self.flush(&[b]);
+                    i += 1;
+                }
+            }
+        }
+        Ok(())
+    }
+}
+
+fn j(v: Vec<String>, sep: &str) -> String {
+    if v.is_empty() {
+        "-".to_string()
+    } else {
+        v.join(sep)
+    }
+}
+
+/// request line for a CFF-flavoured font: facts of the requested glyphs from the ORIGINAL font
+pub fn make_cf(id: &str, used: &[u32], bytes: &[u8], s: &Sfnt, mapped: &[(u32, u16)], ng: u16) -> Option<String> {
+    let cff = Cff::parse(s.table(b"CFF ").ok()?).ok()?;
+    let mut need: Vec<u16> = mapped.iter().map(|p| p.1).collect();
+    need.push(0);
+    need.sort();
+    need.dedup();
+    let facts: Vec<String> = need
+        .iter()
+        .map(|g| match cff.glyph(*g as usize) {
+            Ok((w, fp)) => format!("{}:{}:{}", g, w, fp),
+            Err(_) => format!("{}:?:0", g),
+        })
+        .collect();
     Some(format!(
-        "cf font={} used={} size={} ng={} cmap={}",
+        "cf font={} used={} size={} ng={} cid={} cmap={} g={}",
         id,
-        j(used.iter().map(|c| c.to_string()).collect()),
+        j(used.iter().map(|c| c.to_string()).collect(), ","),
         bytes.len(),
         ng,
-        j(mapped.iter().map(|(c, g)| format!("{}:{}", c, g)).collect())
+        cff.is_cid as u8,
+        j(mapped.iter().map(|(c, g)| format!("{}:{}", c, g)).collect(), ","),
+        j(facts, ";")
     ))
 }
 
-pub fn cff_facts(_data: &[u8], _map: &BTreeMap<u32, u16>) -> String {
-    "n=0".into()
+/// facts of a raw-CFF subset: `n=<glyphs> wf=<ok|problem> cs=<gid:cid,…> g=<gid:width:fp;…>`
+pub fn cff_facts(data: &[u8], _map: &BTreeMap<u32, u16>) -> String {
+    let cff = match Cff::parse(data) {
+        Ok(c) => c,
+        Err(e) => return format!("n=0 wf=unreadable:{} cs=- g=-", e.replace(' ', "_")),
+    };
+    let n = cff.charstrings.items.len();
+    let mut probs: Vec<String> = vec![];
+    if !cff.is_cid {
+        probs.push("not-cid-keyed".into());
+    }
+    if cff.gsubrs.items.len() != 0 || cff.privates.iter().any(|p| !p.subrs.items.is_empty()) {
+        probs.push("m:subrs-left".into());
+    }
+    let mut facts = vec![];
+    for g in 0..n {
+        match cff.glyph(g) {
+            Ok((w, fp)) => facts.push(format!("{}:{}:{}", g, w, fp)),
+            Err(e) => {
+                probs.push(format!("glyph-{}:{}", g, e.replace(' ', "_")));
+                facts.push(format!("{}:?:0", g));
+            }
+        }
+    }
+    let cs: Vec<String> = (0..n).map(|g| format!("{}:{}", g, cff.charset[g])).collect();
+    format!(
+        "n={} wf={} cs={} g={}",
+        n,
+        if probs.is_empty() { "ok".to_string() } else { probs.join(",") },
+        j(cs, ","),
+        j(facts, ";")
+    )
 }
